@@ -417,6 +417,15 @@ func (r *replicatorActor) handleUpdate(ctx *ReceiveContext, msg updateCommand) {
 // handleGet reads the current value of a CRDT key.
 func (r *replicatorActor) handleGet(ctx *ReceiveContext, msg getCommand) {
 	keyID := msg.KeyID()
+
+	// a deleted key stays deleted until its tombstone expires: a coordinated
+	// read must not let a peer that has not applied the tombstone yet bring
+	// the value back into the local store
+	if _, deleted := r.tombstones[keyID]; deleted {
+		ctx.Response(msg.Response(nil))
+		return
+	}
+
 	data := r.store[keyID]
 
 	coordination := msg.ReadCoordination()
